@@ -122,7 +122,10 @@ Definition dump (s : cstate) : string :=
                      | Some (n, off, by_) => Z_to_string n ++ "," ++ Z_to_string off ++ "," ++ d_list (map d_term by_)
                      end;
       "distinct_on=" ++ d_list (map d_term (q_distinct_on _ s));
-      "insert_or_replace=" ++ d_bool (q_insert_or_replace _ s) ].
+      "insert_or_replace=" ++ d_bool (q_insert_or_replace _ s);
+      "top=" ++ d_oz (q_top _ s);
+      "top_percent=" ++ d_bool (q_top_percent _ s);
+      "top_with_ties=" ++ d_bool (q_top_with_ties _ s) ].
 
 (* a correspondence case: the calls, and for several orders (lists of positions) the implementation's
    outcome: "!ExceptionClass" or the dump of the final state *)
